@@ -797,8 +797,17 @@ class CFG:
                                 arm = not pol
             if arm is None:
                 continue
-            if (isinstance(t.op, ast.Or) and arm is True) or (isinstance(t.op, ast.And) and arm is False):
-                out[src(t)] = arm
+            def holds(e, v):
+                while isinstance(e, ast.UnaryOp) and isinstance(e.op, ast.Not):
+                    e, v = e.operand, not v
+                if not isinstance(e, ast.BoolOp):
+                    return
+                if (isinstance(e.op, ast.Or) and v is True) or (isinstance(e.op, ast.And) and v is False):
+                    out[src(e)] = v
+                else:       # a conjunction that held / a disjunction that failed: every operand has that outcome
+                    for o in e.values:
+                        holds(o, v)
+            holds(t, arm)
         return out
 
     def facts_at(self, nid, ignore_exc=True):
